@@ -15,7 +15,7 @@ ID = "C09"
 LEVEL = "exploration"
 TECHNIQUE = "Hypothesis-generated operation sequences (model-based: create/recheck/edit/magnet/rebuild interleaved with filesystem mutations) executed in one long-lived process without resets; after every step the observable is compared with the same step performed by a forked copy of a never-used interpreter (cross-validated against real fresh subprocesses) ; mtime-preserving rewrites and flips, restore, sparse 17 MB file with automatic piece length, varying piece lengths, class-based creators"
 RULE = ("Cases: sequences of 3..25 steps over one sandbox: create v1/v2/hybrid of the payload directory or of one file in it (library and "
-        "CLI), add / delete / grow / shrink / rewrite a file under the payload, edit, recheck (root or parent), rebuild, magnet; the history "
+        "CLI; also configured by one of six torrentfile.ini files via --config --config-path, incl. options in [DEFAULT] and tracker lists, and the bare CLI create with no options), add / delete / grow / shrink / rewrite a file under the payload, edit, recheck (root or parent), rebuild, magnet; the history "
         "process keeps all interpreter state between steps. Oracle per torrentfile step: the same operation on the same filesystem state in "
         "a pristine interpreter (a server process forked before any torrentfile operation ran forks one grandchild per query; every 25th "
         "query is additionally run in a brand-new python subprocess and must agree with the fork, else harness error) must yield the same "
@@ -51,6 +51,17 @@ def teardown_worker():
         _server = None
 
 
+# configuration files for the cli-config route (legitimate INI: options may sit in [DEFAULT]; list values are one URL per line)
+INIS = {
+    "defaults-section": "[DEFAULT]\nsource = SRC\nprivate = true\ncomment = from defaults\n\n[config]\npiece-length = 15\n",
+    "two-trackers": "[config]\nannounce = http://one.example/announce\n    http://two.example/announce\n",
+    "one-tracker": "[config]\ntracker = http://three.example/announce\npiece-length = 14\n",
+    "seeds-and-source": "[config]\nweb-seed = http://w.example/a\n    http://w.example/b\nhttp-seed = http://h.example/a\nsource = other\n",
+    "bare": "[config]\npiece-length = 16\n",
+    "private-only": "[config]\nprivate = true\ncomment = c2\n",
+}
+
+
 def strategy(tier):
     fsop = st.one_of(
         st.fixed_dictionaries({"op": st.just("add"), "name": st.sampled_from(NAMES), "size": st.sampled_from([0, 1, 5000, 16384, 20000, 40000]), "seed": st.integers(0, 99)}),
@@ -71,6 +82,11 @@ def strategy(tier):
                                "auto": st.sampled_from([False, False, True]), "pexp": st.sampled_from([14, 14, 15, 16])}),
         st.fixed_dictionaries({"op": st.just("create"), "ver": st.sampled_from(["1", "2", "3"]), "route": st.sampled_from(["lib", "cli", "lib-class"]),
                                "target": st.just("dir"), "k": st.just(0), "pexp": st.sampled_from([14, 15, 16])}),
+        # create configured by a torrentfile.ini (--config --config-path): whatever the configuration layer keeps between two uses shows
+        st.fixed_dictionaries({"op": st.just("create"), "ver": st.sampled_from(["1", "2", "3"]), "route": st.just("cli-config"),
+                               "target": st.just("dir"), "k": st.just(0), "pexp": st.just(14), "ini": st.sampled_from(sorted(INIS))}),
+        st.fixed_dictionaries({"op": st.just("create"), "ver": st.sampled_from(["1", "2", "3"]), "route": st.just("cli-plain"),
+                               "target": st.just("dir"), "k": st.just(0), "pexp": st.just(14)}),
         st.fixed_dictionaries({"op": st.just("recheck"), "m": st.integers(0, 9), "content": st.sampled_from(["root", "parent"])}),
         st.fixed_dictionaries({"op": st.just("edit"), "m": st.integers(0, 9), "req": edits.edit_request()}),
         st.fixed_dictionaries({"op": st.just("magnet"), "m": st.integers(0, 9)}),
@@ -137,6 +153,14 @@ def perform(req):
                     creator = {"1": "TorrentFile", "2": "TorrentFileV2", "3": "TorrentFileHybrid"}[req["ver"]]
                 kw = {} if req.get("auto") else {"piece_length": 1 << pexp}
                 target.create_lib(creator, req["path"], out, **kw)
+            elif req["route"] == "cli-config":
+                ini = out + ".ini"
+                with open(ini, "w", encoding="utf-8") as fd:
+                    fd.write(INIS[req["ini"]])
+                target.execute(["create", "--meta-version", req["ver"], "-o", out, "--prog", "0", "--config", "--config-path", ini, req["path"]])
+            elif req["route"] == "cli-plain":
+                # no tracker, no piece length, nothing but the payload: the defaults of the argument parser decide
+                target.execute(["create", "--meta-version", req["ver"], "-o", out, "--prog", "0", req["path"]])
             else:
                 pl = [] if req.get("auto") else ["--piece-length", str(pexp)]
                 target.execute(["create", "--meta-version", req["ver"], "-o", out, "--prog", "0"] + pl + [req["path"]])
@@ -265,6 +289,9 @@ def run_case(case):
                     tpath = pay
                 req.update({"ver": step["ver"], "route": step["route"], "path": tpath, "auto": step.get("auto", False),
                             "pexp": step.get("pexp", 14)})
+                if "ini" in step:
+                    req["ini"] = step["ini"]
+                    classes.add("create-via-config-file")
                 key = tpath
             else:
                 if not metas:
